@@ -29,6 +29,15 @@ def path_signature(res, rename: dict):
             return v
 
         txt = repr({k: ren(v) for k, v in e.items() if k in ("fn", "dim", "aug", "target", "like", "op", "axis", "allow_unused", "how", "shape", "left", "right")})
+        if e["kind"] == "autograd":
+            for fld in ("outputs", "grad_outputs"):
+                d = e.get(fld)
+                if isinstance(d, dict):
+                    txt += f"|{fld}:{ren(str(d.get('order')))}:{ren(d.get('atoms') or [])}"
+        if e["kind"] in ("pack", "diag"):
+            o = str(e.get("order") or e.get("layout"))
+            txt += "|" + ren(o).replace("'unordered'", "'*'").replace("'same'", "'*'") if any(a in o for a in ("tensors", "features", "losses", "tasks")) and not any(
+                a in o for a in list(rename) + list(rename.values())) else ""
         sig.append((e["kind"], e["loc"], txt))
     return tuple(sig)
 
